@@ -83,7 +83,7 @@ def describe(case):
 # (a) reference featurizer
 
 
-def _frame(levels1, levels2=None, nf=3):
+def _frame(levels1, levels2=None, nf=3, unexpected_reporting=False):
     import pandas as pd
 
     rows = []
@@ -99,7 +99,7 @@ def _frame(levels1, levels2=None, nf=3):
         rows.append(
             {
                 "postal_code": states[i],
-                "reporting": 1 if i < nf else 0,
+                "reporting": 1 if i < nf or (unexpected_reporting and i == nf + 2) else 0,
                 "unit_category": "expected" if i < nf + 2 else "unexpected",
                 "fe1": levels1[i],
                 "x": xs[i],
@@ -255,6 +255,12 @@ def _feat_case(case, cov, viol):
                 cov["two_effects_with_selected_levels"] += 1
             nontrivial = nontrivial or bool(nt)
             runs += 1
+        # an unexpected unit may arrive flagged as reporting (frames not built by the data handler): it is still not a fitting row
+        feats, center, states, intercept = variants[(idx + 1) % len(variants)]
+        ctx = f"fe1={l1} fe2={l2} selected={sel} selected_fe2={sel2} features={feats} centre={center} separate_states={states} intercept={intercept} unexpected_row_flagged_reporting"
+        _check_featurizer(_frame(l1, l2, nf, unexpected_reporting=True), effects, sel, feats, center, states, intercept, viol, cov, ctx, nf=nf, sel2=sel2)
+        cov["frames_with_reporting_unexpected_row"] += 1
+        runs += 1
         # the callers concatenate frames that each carry their own 0..n-1 row labels: labels repeat, also within the holdout rows
         feats, center, states, intercept = variants[idx % len(variants)]
         ctx = f"fe1={l1} fe2={l2} selected={sel} features={feats} centre={center} separate_states={states} intercept={intercept} row_labels=[0..{nf - 1},0,0,1]"
@@ -458,4 +464,4 @@ def evaluate(case):
     return {"violations": V, "cov": dict(cov), "outcome": sha([v["sig"] for v in V] + [case["kind"], runs]), "nontrivial": nontrivial, "transitions": max(1, runs)}
 
 
-REQUIRED_COUNTERS = {"featurizer_runs": 5000, "holdout_rows_with_unseen_level": 500, "levels_only_outside_fitting_rows": 500, "fit_rows_decoded": 500, "predict_rows_decoded": 200, "predict_rows_unseen_level": 10, "state_copies_checked": 100, "silent_state_no_copy": 100, "frames_with_duplicate_row_labels": 500, "two_effects_with_selected_levels": 1000, "second_effect_unseen_level_with_fitted_dummies": 500}
+REQUIRED_COUNTERS = {"featurizer_runs": 5000, "holdout_rows_with_unseen_level": 500, "levels_only_outside_fitting_rows": 500, "fit_rows_decoded": 500, "predict_rows_decoded": 200, "predict_rows_unseen_level": 10, "state_copies_checked": 100, "silent_state_no_copy": 100, "frames_with_duplicate_row_labels": 500, "two_effects_with_selected_levels": 1000, "second_effect_unseen_level_with_fitted_dummies": 500, "frames_with_reporting_unexpected_row": 500}
